@@ -544,10 +544,10 @@ class ArrayTwin:
        (b) every argument array still holds what the caller passed.
     One obligation per function (all its calls together).  The scalar result is what the check goes on with, so nothing else changes."""
 
-    def __init__(self, chk, rule, it, decider, skip=()):
+    def __init__(self, chk, rule, it, decider, skip=(), prime=True):
         from ..core.interp import ArrBox, concrete
         from ..core import expr as X
-        self.chk = chk; self.rule = rule; self.it = it; self.d = decider; self.skip = set(skip)
+        self.chk = chk; self.rule = rule; self.it = it; self.d = decider; self.skip = set(skip); self.prime = prime
         self.busy = False; self.res = {}      # (path, fname) -> [ncalls, problems, where]
         orig = it.call
         me = self
@@ -588,8 +588,27 @@ class ArrayTwin:
             try:
                 args = list(args); kwargs = dict(kwargs or {})
                 out = orig(mod, fnode, list(args), dict(kwargs), **k)
-                bargs = [box(v) for v in args]; bkw = {kk: box(v) for kk, v in kwargs.items()}
-                boxes = [(f'argument {i + 1}', o, b) for i, (o, b) in enumerate(zip(args, bargs)) if b is not o] + [(f'argument {kk}', kwargs[kk], bkw[kk]) for kk in kwargs if bkw[kk] is not kwargs[kk]]
+                # the second call is made at *other* values (every argument that is a plain symbol is replaced by a primed copy): a result remembered from the first call
+                # (a cache keyed on part of the arguments, a buffer kept between calls) then shows up as a difference
+                ren = {}
+                for v in (list(args) + list(kwargs.values())) if me.prime else []:
+                    if isinstance(v, X.Node) and v.op == 'atom' and not v.val[0].startswith(('const_', 'pi', 'float_')):
+                        ren.setdefault(v.val[0], X.atom(v.val[0] + "'", v.val[1]))
+
+                def resub(v):
+                    if isinstance(v, ArrBox): return ArrBox(resub(v.v))
+                    if isinstance(v, X.Node): return X.subst(v, ren)
+                    if isinstance(v, tuple): return tuple(resub(x_) for x_ in v)
+                    if isinstance(v, list): return [resub(x_) for x_ in v]
+                    if isinstance(v, dict): return {k_: resub(x_) for k_, x_ in v.items()}
+                    return v
+                if ren:
+                    pargs = [resub(v) for v in args]; pkw = {kk: resub(v) for kk, v in kwargs.items()}
+                    expected = resub(out)
+                else:
+                    pargs = list(args); pkw = dict(kwargs); expected = out
+                bargs = [box(v) for v in pargs]; bkw = {kk: box(v) for kk, v in pkw.items()}
+                boxes = [(f'argument {i + 1}', o, b) for i, (o, b) in enumerate(zip(pargs, bargs)) if b is not o] + [(f'argument {kk}', pkw[kk], bkw[kk]) for kk in pkw if bkw[kk] is not pkw[kk]]
                 rec = me.res.setdefault((mod.rel(), fnode.name), [0, [], mod.where(fnode)])
                 if not boxes:
                     return out
@@ -600,7 +619,7 @@ class ArrayTwin:
                 finally:
                     it.array_mode = old
                 rec[0] += 1
-                r = same(out, out_a)
+                r = same(expected, out_a)
                 if r: rec[1].append(r)
                 for lab, o, b in boxes:
                     if b.v is not o and not me.d.equal(b.v, o):
